@@ -25,10 +25,13 @@ EXPLANATION = (
     "the float is integral); R-nan-restore (boolean provenance: NaN is written back for feature f iff "
     "not features_dropna[f] and str_nan has a label, replacing exactly that label); R-qualitative-map "
     "(qualitative replacement uses labels_per_values restricted to qualitative features); R-index-kept "
-    "(quantitative labels built from plain lists are stored with index=X.index: each row gets the label of its own value)."
+    "(quantitative labels built from plain lists are stored with index=X.index: each row gets the label of its own value); "
+    "R-single-table / R-default-formula / R-rowwise (missing values are kept or labelled per feature with "
+    "features_dropna; unknown values go to the default group of their own feature through a mapping built "
+    "per column)."
 )
 NOT_DECIDED = "pandas replace/select semantics; equality of outputs on data"
-FLOORS = {"R-labels-last": 12, "R-interval-lookup": 2, "R-float-labels-injective": 1, "R-label-injective": 1, "R-string-form": 2, "R-nan-restore": 2, "R-qualitative-map": 1, "R-index-kept": 1, "R-label-alignment": 2}
+FLOORS = {"R-labels-last": 12, "R-interval-lookup": 2, "R-float-labels-injective": 1, "R-label-injective": 1, "R-string-form": 2, "R-nan-restore": 2, "R-qualitative-map": 1, "R-index-kept": 1, "R-label-alignment": 2, "R-single-table": 2, "R-default-formula": 2, "R-rowwise": 1, "R-labels-refreshed": 2}
 
 EDIT_NAMES = ("values_orders", "_remove_feature", "features", "quantitative_features", "qualitative_features")
 
@@ -302,17 +305,26 @@ def rule_nan_restore(ctx):
         return
     st = stores[0]
     loops = [l for l in cfg.enclosing_loops(st) if isinstance(l, ast.For)]
-    okl = len(loops) == 1 and unparse(loops[0].iter) == "self.features_dropna.items()" and isinstance(loops[0].target, ast.Tuple)
-    if not okl:
+    if len(loops) != 1:
         ctx.ob(R, construct(fi, "NaN reinstated per feature according to features_dropna"), None, loc(fi, st), "loop form not understood")
         return
-    fvar, dvar = [unparse(e) for e in loops[0].target.elts]
+    if unparse(loops[0].iter) == "self.features_dropna.items()" and isinstance(loops[0].target, ast.Tuple):
+        fvar, dvar = [unparse(e) for e in loops[0].target.elts]
+    elif isinstance(loops[0].target, ast.Name):
+        fvar, dvar = loops[0].target.id, None
+    else:
+        ctx.ob(R, construct(fi, "NaN reinstated per feature according to features_dropna"), None, loc(fi, st), "loop form not understood")
+        return
     defs = single_defs(fi.node)
     lpv = "label_per_value" if "label_per_value" in defs else None
 
     def classify(e):
-        if isinstance(e, ast.Name) and e.id == dvar:
+        if dvar is not None and isinstance(e, ast.Name) and e.id == dvar:
             return p_atom("DROPNA")
+        if unparse(e) == f"self.features_dropna[{fvar}]":
+            return p_atom("DROPNA")
+        if unparse(e) == "self.dropna":
+            return p_atom("GLOBAL_DROPNA_FLAG_NOT_THE_FEATURE_FLAG")
         cc = cmp_canon(e)
         if cc and cc[0] == "self.str_nan" and cc[1] in ("in", "not in") and cc[2] in ("label_per_value", f"self.labels_per_values[{fvar}]"):
             return p_atom("HAS_NAN_LABEL") if cc[1] == "in" else p_not(p_atom("HAS_NAN_LABEL"))
@@ -365,6 +377,14 @@ def rule_qualitative_map(ctx):
 
 
 def check(ctx):
+    from . import c05, c07, c16
+
+    c16.rule_nan_flag_source(ctx)
+    c05.rule_default_formula(ctx)
+    c07.rule_columns_scoped(ctx)
+    from . import c17
+
+    c17.rule_update(ctx)
     rule_label_alignment(ctx)
     rule_labels_last(ctx)
     rule_interval_lookup(ctx)
@@ -405,6 +425,9 @@ MUTANTS = [
     M("NaN reinstated even when dropna", [(F_BASE, "            if not dropna:  # checking whether we should have dropped nans or not", "            if True:  # checking whether we should have dropped nans or not")], "R-nan-restore"),
     M("NaN reinstated when dropna (polarity)", [(F_BASE, "            if not dropna:  # checking whether", "            if dropna:  # checking whether")], "R-nan-restore", quick=True),
     M("NaN reinstated only when the frame holds a missing value (depends on other rows)", [(F_BASE, "                if self.str_nan in label_per_value:\n                    x_copy[feature] = x_copy[feature].replace(label_per_value[self.str_nan], nan)", "                if self.str_nan in label_per_value and X[feature].isna().any():\n                    x_copy[feature] = x_copy[feature].replace(label_per_value[self.str_nan], nan)")], "R-nan-restore"),
+    M("NaN reinstated according to the global dropna flag", [(F_BASE, "        for feature, dropna in self.features_dropna.items():\n            if not dropna:  # checking whether we should have dropped nans or not\n                label_per_value", "        for feature in self.features:\n            if not self.dropna:  # checking whether we should have dropped nans or not\n                label_per_value")], "R-nan-restore"),
+    M("one flat unknown->default mapping shared by all features", [(F_BASE, "        X.replace(\n            {\n                feature: {\n                    val: self.str_default\n                    for val in uniques[feature]\n                    if val not in self.values_orders[feature].values()\n                    and val != self.str_nan\n                    and self.str_default in self.values_orders[feature].values()\n                }\n                for feature in features\n            },\n            inplace=True,\n        )", "        unknown_to_default = {\n            val: self.str_default\n            for feature in features\n            for val in uniques[feature]\n            if val not in self.values_orders[feature].values()\n            and val != self.str_nan\n            and self.str_default in self.values_orders[feature].values()\n        }\n        X.replace({feature: unknown_to_default for feature in features}, inplace=True)")], "R-rowwise", "column by column"),
+    M("labels refreshed for mode group only", [(F_BASE, "            # updating Carver values_orders and labels_per_values\n            self.values_orders.update({feature: order})\n            self.labels_per_values = self._get_labels_per_values(self.output_dtype)\n", "            # updating Carver values_orders and labels_per_values\n            self.values_orders.update({feature: order})\n            if mode == 'group':\n                self.labels_per_values = self._get_labels_per_values(self.output_dtype)\n")], "R-labels-refreshed"),
     M("wrong label turned into NaN", [(F_BASE, "x_copy[feature].replace(label_per_value[self.str_nan], nan)", "x_copy[feature].replace(self.str_nan, nan)")], "R-nan-restore", "exactly"),
     M("qualitative map applied to all features", [(F_BASE, "                for feature, label_per_value in self.labels_per_values.items()\n                if feature in self.qualitative_features\n", "                for feature, label_per_value in self.labels_per_values.items()\n")], "R-qualitative-map"),
 ]
